@@ -17,6 +17,23 @@ func (p *Prog) serveWorker() *ssa.Function {
 	return p.goClosure(p.MustFn("goat.handler.serve"), "unary worker (go closure receiving from unaryRpcChan)", func(f *ssa.Function) bool { return p.recvsFromField(f, "unaryRpcChan") })
 }
 
+// serverReadLoopFn: the function that runs a server connection's read loop: the one containing the transport Read
+// on the connection's transport h.rw (serve itself, or a method it was extracted into).
+func (p *Prog) serverReadLoopFn() *ssa.Function {
+	var hits []*ssa.Function
+	for _, f := range p.Funcs {
+		for _, rd := range p.transportOps(f, "Read", false) {
+			if p.locPathOfLoad(rd.Call.Value) == "goat.handler.rw" {
+				hits = append(hits, f)
+			}
+		}
+	}
+	if len(hits) != 1 {
+		panic(UnresolvedError{fmt.Sprintf("the function reading from the server connection transport h.rw (found %d)", len(hits))})
+	}
+	return hits[0]
+}
+
 // goClosure: the closure started by a `go` statement in f that satisfies pred.
 func (p *Prog) goClosure(f *ssa.Function, what string, pred func(*ssa.Function) bool) *ssa.Function {
 	var hits []*ssa.Function
@@ -383,7 +400,7 @@ func noSecondBefore(from ssa.Instruction, isSite func(ssa.Instruction) bool, bar
 
 func ruleHandlerExactlyOnce(c *Ctx, rule string) {
 	p := c.p
-	serve := p.MustFn("goat.handler.serve")
+	serve := p.serverReadLoopFn()
 	reads := p.transportOps(serve, "Read", false)
 	if len(reads) != 1 {
 		panic(UnresolvedError{"the single transport Read in serve"})
